@@ -5,6 +5,7 @@ package main
 import (
 	"encoding/json"
 	"sort"
+	"strconv"
 	"strings"
 
 	"github.com/grafana/cog/verifx/gschema"
@@ -635,4 +636,109 @@ func branchOf(s gschema.Schema, t gschema.Term, v any, budget int) int {
 		}
 	}
 	return -1
+}
+
+// atoms flattens a JSON value into "path\x00value" strings of its scalar
+// leaves (and empty containers); paths are member names / indices / keys
+// joined by "\x01".
+func atoms(v any, path []string, out map[string][]string) {
+	switch x := v.(type) {
+	case map[string]any:
+		if len(x) == 0 {
+			out[strings.Join(path, "\x01")+"\x00{}"] = append([]string{}, path...)
+		}
+		for _, k := range sortedKeys(x) {
+			atoms(x[k], append(path, k), out)
+		}
+	case []any:
+		if len(x) == 0 {
+			out[strings.Join(path, "\x01")+"\x00[]"] = append([]string{}, path...)
+		}
+		for i, e := range x {
+			atoms(e, append(path, strconv.Itoa(i)), out)
+		}
+	default:
+		out[strings.Join(path, "\x01")+"\x00"+canonOf(v)] = append([]string{}, path...)
+	}
+}
+
+// leafTokenAt is the shapeClass-style name of the position reached by path.
+func leafTokenAt(s gschema.Schema, t gschema.Term, path []string, prefix string, budget int) string {
+	if t.K == "ref" {
+		rt, nb, ok := resolve(s, t, budget)
+		if !ok || budget <= 0 {
+			return prefix + token(t)
+		}
+		rt.Nullable = false
+		if rt.K == "struct" || rt.K == "array" || rt.K == "map" {
+			return leafTokenAt(s, rt, path, "", nb)
+		}
+		return leafTokenAt(s, rt, path, prefix+token(t)+" > ", nb)
+	}
+	if len(path) == 0 {
+		return prefix + token(t)
+	}
+	switch t.K {
+	case "struct":
+		for i, f := range t.Fields {
+			if f.Name == path[0] {
+				p := ""
+				if !f.Required {
+					p = "optional "
+				}
+				return leafTokenAt(s, t.Sub[i], path[1:], p, budget)
+			}
+		}
+	case "array":
+		return leafTokenAt(s, t.Sub[0], path[1:], "", budget)
+	case "map":
+		return leafTokenAt(s, t.Sub[1], path[1:], "", budget)
+	}
+	return prefix + token(t)
+}
+
+// culpritClass localises a failure that has no differing position (two
+// decodings of one document): the leaves (path, value) that occur in every
+// failing document and in no passing one. Falls back to the whole shape.
+func culpritClass(s gschema.Schema, failing, passing []string) string {
+	var common map[string][]string
+	for _, d := range failing {
+		v, err := parseJSON(d)
+		if err != nil {
+			return shapeClass(s)
+		}
+		a := map[string][]string{}
+		atoms(v, nil, a)
+		if common == nil {
+			common = a
+			continue
+		}
+		for k := range common {
+			if _, ok := a[k]; !ok {
+				delete(common, k)
+			}
+		}
+	}
+	for _, d := range passing {
+		if v, err := parseJSON(d); err == nil {
+			a := map[string][]string{}
+			atoms(v, nil, a)
+			for k := range a {
+				delete(common, k)
+			}
+		}
+	}
+	set := map[string]bool{}
+	for _, path := range common {
+		set[leafTokenAt(s, s.Objs[0].T, path, "", 3)] = true
+	}
+	if len(set) == 0 {
+		return shapeClass(s)
+	}
+	var l []string
+	for k := range set {
+		l = append(l, k)
+	}
+	sort.Strings(l)
+	return "leaves {" + strings.Join(l, ", ") + "}"
 }
